@@ -30,14 +30,16 @@ def run_actor(ctx, prop):
         runs = [["--mode", "dfs", "--clients", 2, "--per", 2, "--depth", 7, "--emit-every", 400],
                 ["--mode", "dfs", "--clients", 2, "--per", 2, "--depth", 5, "--cancel", 1, "--emit-every", 400],
                 ["--mode", "dfs", "--clients", 3, "--per", 1, "--depth", 6, "--emit-every", 400],
-                ["--mode", "sample", "--cases", 400]]
+                ["--mode", "sample", "--cases", 400],
+                ["--mode", "stall", "--stall-ms", 1300]]
     else:
         runs = [["--mode", "dfs", "--clients", 2, "--per", 2, "--depth", 10, "--emit-every", 20000],
                 ["--mode", "dfs", "--clients", 2, "--per", 3, "--depth", 9, "--emit-every", 5000],
                 ["--mode", "dfs", "--clients", 2, "--per", 2, "--depth", 7, "--cancel", 1, "--emit-every", 5000],
                 ["--mode", "dfs", "--clients", 3, "--per", 2, "--depth", 8, "--emit-every", 5000],
                 ["--mode", "dfs", "--clients", 3, "--per", 1, "--depth", 6, "--cancel", 1, "--emit-every", 5000],
-                ["--mode", "sample", "--cases", 6000, "--maxclients", 7]]
+                ["--mode", "sample", "--cases", 6000, "--maxclients", 7],
+                ["--mode", "stall", "--stall-ms", 1300], ["--mode", "stall", "--stall-ms", 5500]]
     if prop == "C11":
         # overflow-checked (debug) build of the same harness: arithmetic that only wraps in release unwinds the actor task here
         dbg = C.harness_build(ctx, "srv", ["actor"], profile="debug")
